@@ -198,14 +198,18 @@ Section Jet.
   Fixpoint jvp_polys (v : vfield) (n : nat) : list poly :=
     match n with O => vf_f v | S n' => jvp_step v (jvp_polys v n') end.
 
+  (* g_0, g_1, ..., g_{n-1}: the loop of the code (each g_{i+1} built from g_i) *)
+  Fixpoint jvp_iter (v : vfield) (G : list poly) (n : nat) : list (list poly) :=
+    match n with O => [] | S n' => G :: jvp_iter v (jvp_step v G) n' end.
+
   Definition via_jvp_model (v : vfield) (inits : list tvec) (t : F) (num : nat)
     : option (list tvec) :=
     match num with
     | O => Some inits
     | S num' =>
       if Nat.eqb (length inits) (vf_k v)
-      then Some (inits ++ map (fun n => map (eval_poly (vf_env inits t)) (jvp_polys v n))
-                              (seq 0 num))
+      then Some (inits ++ map (fun G => map (eval_poly (vf_env inits t)) G)
+                              (jvp_iter v (vf_f v) num))
       else None
     end.
 
